@@ -76,10 +76,11 @@ def evaluate(e: ast.AST, atom: Callable[[ast.AST], Optional[Val]]) -> Optional[V
         return None if a is None else Val(list(reversed(a.out)), a.pairs)
     if isinstance(e, ast.BinOp) and isinstance(e.op, ast.MatMult):
         a, b = evaluate(e.left, atom), evaluate(e.right, atom)
-        if a is None or b is None or len(b.out) != 2 or not a.out:
+        if a is None or b is None or not a.out or not b.out:
             return None
-        r = _contract(a, b, [len(a.out) - 1], [0])
-        return r
+        # numpy.matmul: last axis of a with the second-to-last axis of b (the only one of a vector)
+        bx = 0 if len(b.out) == 1 else len(b.out) - 2
+        return _contract(a, b, [len(a.out) - 1], [bx])
     if not isinstance(e, ast.Call):
         return None
     fn = (dotted(e.func) or "").split(".")[-1]
